@@ -278,6 +278,32 @@ Migrate ==
                                                 (CHOOSE o \in StrOps(R) : o.id = MaxId({p.id : p \in StrOps(R)})).val.toks)
   /\ UNCHANGED <<ops, deps, enc>>
 
+(* C31: anonymization.  Both change graphs are logged in the documents' own order with dependencies as     *)
+(* indexes.  The signature of a change is its (seq, nops, actor class pattern, signatures of its            *)
+(* dependencies); two graphs are isomorphic (as far as the property speaks: same changes, dependency        *)
+(* structure, op counts) iff they have the same bag of signatures, and changes of one actor correspond to  *)
+(* changes of one actor.  Every change of the original must have a counterpart with the same signature and *)
+(* the same document shape at its heads.                                                                    *)
+RECURSIVE SigOf(_, _)
+SigOf(G, i) == [seq |-> G[i].seq, nops |-> G[i].nops, deps |-> {SigOf(G, d) : d \in S(G[i].deps)},
+                ndeps |-> Len(G[i].deps)]
+SigBag(G) == {[sig |-> sg, n |-> Cardinality({i \in DOMAIN G : SigOf(G, i) = sg})] : sg \in {SigOf(G, i) : i \in DOMAIN G}}
+(* the partition of the changes into actors, as a set of sets of signatures-with-position *)
+ActorBags(G) == {{[sig |-> SigOf(G, i), seq |-> G[i].seq] : i \in {j \in DOMAIN G : G[j].actor = a}} : a \in {G[i].actor : i \in DOMAIN G}}
+Anon ==
+  /\ IsEv("anon")
+  /\ Chk("C31", "anonymize-succeeds", E.res = "ok")
+  /\ (E.res = "ok") =>
+       /\ Chk("C31", "same-number-of-changes", Len(E.orig.changes) = Len(E.anon.changes))
+       /\ \A G \in {E.orig.changes} : \A H \in {E.anon.changes} :
+            /\ Chk("C31", "change-graphs-are-isomorphic", SigBag(G) = SigBag(H))
+            /\ Chk("C31", "actors-partition-the-changes-alike", ActorBags(G) = ActorBags(H))
+            /\ Chk("C31", "same-shape-at-every-change",
+                   \A i \in DOMAIN G : \E j \in DOMAIN H : SigOf(H, j) = SigOf(G, i) /\ H[j].shape = G[i].shape)
+       /\ Chk("C31", "same-shape-at-the-current-heads", E.orig.shape = E.anon.shape /\ E.orig.nheads = E.anon.nheads)
+       /\ Chk("C31", "anonymized-document-saves-and-reloads", E.reload)
+  /\ UNCHANGED <<ops, deps, enc>>
+
 (* C32: the serde image of the current state: winners only, text as strings, nested *)
 NumStr(v) == IF v.k = "counter" THEN (IF v.s = "" THEN ToString(v.n) ELSE v.s) ELSE v.s
 ScalarImage(v) ==
@@ -315,13 +341,13 @@ Serde ==
 
 Other ==
   /\ l <= Len(Rec)
-  /\ E.ev \notin {"reset", "commit", "chgdef", "readat", "curs", "idprobe", "migrate", "serde"}
+  /\ E.ev \notin {"reset", "commit", "chgdef", "readat", "curs", "idprobe", "migrate", "serde", "anon"}
   /\ l' = l + 1
   /\ ObsOK(ops)
   /\ UNCHANGED <<ops, deps, enc>>
 
 Init == l = 1 /\ ops = <<>> /\ deps = <<>> /\ enc = "cp"
-Next == Reset \/ Commit \/ ChgDef \/ ReadAt \/ Curs \/ IdProbe \/ Migrate \/ Serde \/ Other
+Next == Reset \/ Commit \/ ChgDef \/ ReadAt \/ Curs \/ IdProbe \/ Migrate \/ Serde \/ Anon \/ Other
 Spec == Init /\ [][Next]_vars
 
 Accepted ==
